@@ -20,6 +20,20 @@ CLAIMED = {
          "with a property oracle on the implementation's files for the failing-input search.",
          "DESIGN.md 5 (C20)",
          "ASCII payloads; strftime is a parameter; TimedRotatingFileStream/WatchedFileStream not modelled."),
+ "C13": ("Lean 4 theorems (structural induction over texts, option tables and wid histories) about models of "
+         "replace_gnu_args (regex scanner), shlex.split/quote, Process.format_args/spawn, the Watcher env assembly and "
+         "_nextwid + differential correspondence with the real functions and with Watcher.spawn_process driving a "
+         "recording Popen",
+         "C13_list_args_kept(+_noshell,_boundaries), C13_quote_roundtrip (every argument list), C13_shell_line, "
+         "C13_unknown_verbatim(2), C13_literal_unchanged, C13_literal_prefix, C13_unclosed_verbatim, C13_wid, "
+         "C13_wid_format_args, C13_env_exact(_nocopy,_copy), C13_nextwid(_raise,_first), C13_wid_unique are proved for "
+         "all texts, tables, environments and histories; each run re-checks the proofs, audits axioms and diffs the "
+         "models against replace_gnu_args, shlex, Process.format_args and Watcher.spawn_process on several thousand "
+         "generated inputs, with a property oracle on the implementation's Popen arguments for the failing-input search.",
+         "DESIGN.md 5 (C13)",
+         "ASCII for \\w / re.I / lower(); str() of option values, os.environ, sys.path and working_dir are parameters; "
+         "wid uniqueness is proved for histories of spawn/death/numprocesses changes over _nextwid, not yet over the "
+         "full watcher coroutine state machine; Watcher ignores the configured executable (observed, outside the property text)."),
 }
 NOT_YET = "not decided by the machinery in this revision (model layer not built yet); not claimed"
 NOT_APPLICABLE = {}
